@@ -4,3 +4,4 @@ CONSTANTS
   Budget = 12
 INVARIANT Final
 CHECK_DEADLOCK FALSE
+VIEW TraceView
